@@ -149,6 +149,9 @@ func checkC08(c *run.Ctx) {
 						if k == "<<" {
 							k = "<<x"
 						}
+						if len(k) > 300 {
+							k = k[:300]
+						}
 					case 1:
 						k = ""
 					default:
